@@ -40,6 +40,18 @@ CHECKS = {
          "Exploration: cycle-mode programs (self loops, mutual recursion through schemas, aliases, contents, relations, functions, imports; rec inside functions applied several times; cycles with nothing to cut at) are checked for verdict against an independent SCC analysis, for termination by the CPU watchdog, for absence of aliasing by coinductive comparison with the reference unfolding, and for bounds on the number of emitted hash-* components.",
          "Only bounds (not equality) on the component count are asserted because the statement leaves open whether equal applications are one instantiation; strict-fragment exclusions as for C02.",
          "DESIGN.md §4 C09"),
+ "C03": ("generated and mutated accepted programs x generated base documents; independent structural validator over the re-parsed YAML",
+         "Exploration: every document the C01 generators can make oal emit (typed, loose, shadowing, mutant programs; one in three merged into a generated base) is re-parsed and walked by R-val: $refs resolve inside the document, path variables match required path parameters exactly, response keys are legal, operationIds are distinct, and the YAML parses back to the same OpenAPI value. Collisions of two synthesised operationIds are the known finding F10.",
+         "R-val is written from the OpenAPI 3.0 text; `default` is accepted as a Responses key; duplicate ids involving a user-written id are outside the domain and counted.",
+         "DESIGN.md §4 C03"),
+ "C06": ("process-level and in-process differential: byte equality of the output across fresh processes, repeated compilations and threads",
+         "Exploration: generated programs rich in references, rec instantiations, examples and modules are compiled by the real oal-cli 8 (quick) / 24 (thorough) times as fresh processes - each with its own hash seeds - and 6-7 times in one process interleaved with other compilations plus once on a new thread; any byte difference is a violation.",
+         "Hash seeds are sampled by starting processes, not enumerated; time is not varied (nothing in the pipeline reads the clock).",
+         "DESIGN.md §4 C06"),
+ "C14": ("generated base documents x accepted programs; frame equality oracle through Builder::with_base and through oal-cli --base",
+         "Exploration: bases generated over the OpenAPI object model (servers absent/empty/with variables, security, tags, externalDocs, extensions, every non-schema component map, own paths and schemas) are combined with generated programs; everything but paths and components.schemas must equal the base as the tool reads it, and those two must equal the base-less output; one pair in twelve also runs through the real CLI.",
+         "`The base` is the document as deserialised by the openapiv3 model used by the tool itself.",
+         "DESIGN.md §4 C14"),
  "C04": ("grammar-aware text fuzzing + exhaustive short token sequences, crash/hang oracle over four front ends",
          "Exploration: every token-kind sequence up to length 3 (all 54 kinds) / 5 (reduced alphabet), plus hundreds of thousands of generated texts, mutants and nesting templates are pushed through parse, the playground entry point, the real oal-cli and the real oal-lsp; any panic, abort, stack overflow, CPU-limit or wrong exit status is a violation. It cannot show absence of crashing inputs outside the explored set.",
          "Trusts the OS process model (exit status, signals, RLIMIT_CPU) and that the harness's own text splitter is only used for non-triviality counting. Known-finding signatures are matched narrowly (panic file + message head + structural label).",
